@@ -26,6 +26,9 @@ import (
 	_ "pdverif/internal/quiet"
 	"pdverif/internal/res"
 	"pdverif/internal/rng"
+	"pdverif/internal/srv15"
+
+	pd "github.com/tikv/pd/client"
 )
 
 const (
@@ -101,21 +104,21 @@ type memState struct {
 
 type mem struct {
 	lastPut int64 // value of the last window put this member issued (whether or not it was applied)
-	m     *member.Member
-	ctl   *etcdx.CtlKV
-	am    *tso.AllocatorManager
-	alloc tso.Allocator
-	syncP *pend
-	updP  *pend
-	setP  *pend
+	m       *member.Member
+	ctl     *etcdx.CtlKV
+	am      *tso.AllocatorManager
+	alloc   tso.Allocator
+	syncP   *pend
+	updP    *pend
+	setP    *pend
 }
 
 type world struct {
-	e     *etcdx.Etcd
-	admin *clientv3.Client
-	root  string
-	mems  []*mem
-	ambig bool // a clock reading that could not be recovered lies too close to a decision threshold
+	e        *etcdx.Etcd
+	admin    *clientv3.Client
+	root     string
+	mems     []*mem
+	ambig    bool // a clock reading that could not be recovered lies too close to a decision threshold
 	panicked string
 }
 
@@ -858,6 +861,92 @@ func raceReset(e *etcdx.Etcd, admin *clientv3.Client, root string, R *res.Result
 	x.am.ResetAllocatorGroup(tso.GlobalDCLocation)
 }
 
+// serverPhase: a complete real server, the real PD client (batching tso dispatcher, first-of-batch formula) with several
+// concurrent callers, the allocator daemon running, a SetTSO-like admin reset in the middle and a restart of the server on
+// the same data directory. Checked on the Go side: no two answers equal, and an answer obtained by a call that began after
+// another call had returned is larger (across the reset and the restart).
+func serverPhase(R *res.Result, prop string, dur time.Duration) {
+	cfg, err := srv15.Config()
+	if err != nil {
+		R.Notes = append(R.Notes, "server phase skipped: "+err.Error())
+		return
+	}
+	x, err := srv15.StartWith(cfg)
+	if err != nil {
+		R.Notes = append(R.Notes, "server phase skipped: "+err.Error())
+		return
+	}
+	type ans struct{ P, L, Begin, End int64 }
+	var mu sync.Mutex
+	var all []ans
+	run := func(d time.Duration) {
+		cli, err := pd.NewClient([]string{cfg.ClientUrls}, pd.SecurityOption{})
+		if err != nil {
+			R.Notes = append(R.Notes, "pd client: "+err.Error())
+			return
+		}
+		defer cli.Close()
+		stop := time.Now().Add(d)
+		var wg sync.WaitGroup
+		for k := 0; k < 6; k++ {
+			wg.Add(1)
+			go func() {
+				defer wg.Done()
+				for time.Now().Before(stop) {
+					b := time.Now().UnixNano()
+					ctx, cancel := context.WithTimeout(context.Background(), 3*time.Second)
+					p, l, err := cli.GetTS(ctx)
+					cancel()
+					if err == nil {
+						mu.Lock()
+						all = append(all, ans{p, l, b, time.Now().UnixNano()})
+						mu.Unlock()
+					}
+				}
+			}()
+		}
+		wg.Wait()
+	}
+	run(dur / 2)
+	// admin reset 3 s ahead through the handler (what pd-ctl `tso reset` does)
+	if a, err := x.S.GetTSOAllocatorManager().GetAllocator(tso.GlobalDCLocation); err == nil {
+		a.SetTSO(compose(time.Now().UnixNano()/1e6+3000, 0))
+	}
+	run(dur / 4)
+	x.Stop()
+	x2, err := srv15.StartWith(cfg)
+	if err != nil {
+		R.Notes = append(R.Notes, "server restart failed: "+err.Error())
+		os.RemoveAll(cfg.DataDir)
+		return
+	}
+	run(dur / 4)
+	x2.Close()
+	seen := map[[2]int64]bool{}
+	for _, a := range all {
+		k := [2]int64{a.P, a.L}
+		if seen[k] {
+			R.Violate(prop+":duplicate-timestamp:real-server", fmt.Sprintf("the timestamp (%d,%d) was handed out twice by a real server / real client", a.P, a.L), a)
+		}
+		seen[k] = true
+	}
+	// real-time order, on a bounded sample sorted by begin
+	n := len(all)
+	if n > 6000 {
+		n = 6000
+	}
+	for i := 0; i < n; i++ {
+		for j := 0; j < n; j++ {
+			a, b := all[i], all[j]
+			if a.End < b.Begin && (a.P > b.P || (a.P == b.P && a.L >= b.L)) {
+				R.Violate(prop+":timestamp-went-back:real-server", fmt.Sprintf("a call that began after (%d,%d) had been returned got (%d,%d)", a.P, a.L, b.P, b.L),
+					map[string]interface{}{"earlier": a, "later": b})
+			}
+		}
+	}
+	R.CountN("server:answers", len(all))
+}
+
 type job struct {
 	idx   int
 	fixed []op
@@ -872,6 +961,7 @@ func main() {
 	corpus := flag.String("corpus", "", "json file of fixed op lists run first")
 	replay := flag.String("replay", "", "json file with op lists: run and print observations")
 	workers := flag.Int("workers", 8, "")
+	serverMs := flag.Int("server-ms", 2400, "duration of the real-server / real-client phase")
 	flag.Parse()
 
 	R := res.New(*prop, *seed, *tier)
@@ -971,6 +1061,7 @@ func main() {
 			}
 			e.Close()
 		}
+		serverPhase(R, *prop, time.Duration(*serverMs)*time.Millisecond)
 	}
 
 	var all []caseRec
